@@ -420,6 +420,60 @@ def case_mapov2(ctx, inp):
     ctx.branch("mapov2-low-rank-first" if inp["low_rank_first"] else "mapov2-high-rank-first")
 
 
+def case_mapov3(ctx, inp):
+    """map_overlap with drop_axis / new_axis (depth and boundary are renumbered for the trim) and with trim=False."""
+    import numpy as np
+    import dask.array as da
+    chunks = tuple(tuple(c) for c in inp["chunks"])
+    shape = tuple(sum(c) for c in chunks)
+    x = (np.arange(int(np.prod(shape))).reshape(shape) % 11 + 1).astype("int64")
+    d = da.from_array(x, chunks=chunks)
+    dep, k = inp["depth"], inp["boundary"]
+    mode = inp["mode"]
+    offs, w = inp["offsets"], inp["weights"]
+    if mode == "trim_false":
+        # 1-d, boundary none: block i of the result is f(window_i), window_i from the Lean block model
+        f = _stencil(w, [[o] for o in offs])
+        r = da.map_overlap(f, d, depth=dep, boundary="none", trim=False, dtype=x.dtype)
+        wins = unsym(ctx.lean(Sym("overlapblocks"), dep, dep, _split(chunks[0])))
+        for i, blk in _blocks_of(r).items():
+            exp = f(x[wins[i[0]]])
+            if blk.shape != exp.shape or (blk != exp).any():
+                ctx.fail("map_overlap(trim=False): block differs from f(overlapped block)", observed=[list(i), blk.tolist()],
+                         expected=exp.tolist())
+                return
+        ctx.branch("mapov3-trim-false")
+        return
+    # 2-d: stencil along axis 1 (depth there), axis 0 is one block
+    f1 = _stencil(w, [[0, o] for o in offs])
+    if k == "none" or dep == 0:
+        xin, t = x, 0
+    else:
+        p = [(0, 0), (dep, dep)]
+        xin = np.pad(x, p, mode=KINDS[k]) if k in KINDS else np.pad(x, p, mode="constant", constant_values=k)
+        t = dep
+    core = f1(xin)[:, t:xin.shape[1] - t or None]
+    try:
+        if mode == "drop_axis":
+            r = da.map_overlap(lambda b: f1(b).sum(axis=0), d, depth={0: 0, 1: dep}, boundary={0: "none", 1: k}, drop_axis=0,
+                               dtype=x.dtype)
+            exp = core.sum(axis=0)
+        else:
+            r = da.map_overlap(lambda b: f1(b)[None], d, depth={0: 0, 1: dep}, boundary={0: "none", 1: k}, new_axis=0,
+                               dtype=x.dtype)
+            exp = core[None]
+        got = np.asarray(r.compute(scheduler="sync"))
+    except Exception as e:
+        ctx.fail("map_overlap(%s) raised %s" % (mode, type(e).__name__), observed=repr(e)[:200])
+        return
+    if got.shape != exp.shape or (got != exp).any():
+        ctx.fail("map_overlap(%s) differs from pad-apply-trim" % mode, observed=got.tolist(), expected=exp.tolist())
+        return
+    if tuple(r.shape) != exp.shape:
+        ctx.fail("map_overlap(%s) lazy shape wrong" % mode, observed=list(r.shape), expected=list(exp.shape))
+    ctx.branch("mapov3-" + mode)
+
+
 def case_swv(ctx, inp):
     import numpy as np
     import dask.array as da
@@ -460,7 +514,7 @@ def case_swv(ctx, inp):
         ctx.branch("swv-repeated-axis")
 
 
-CASES = {"mapov2": case_mapov2, "chunks": case_chunks, "emc": case_emc, "blocks": case_blocks, "bnd": case_bnd, "trimid": case_trimid,
+CASES = {"mapov3": case_mapov3, "mapov2": case_mapov2, "chunks": case_chunks, "emc": case_emc, "blocks": case_blocks, "bnd": case_bnd, "trimid": case_trimid,
          "mapov": case_mapov, "swv": case_swv}
 
 
@@ -570,6 +624,21 @@ def generate(ctx):
                          "boundary": rng.choice(["none", "reflect", "periodic", "nearest", 1]),
                          "offsets": [[rng.randint(-d0, d0), rng.randint(-d1, d1)] for _ in range(k)],
                          "weights": [rng.randint(-2, 3) or 1 for _ in range(k)], "low_rank_first": rng.random() < 0.5}
+    # map_overlap with drop_axis / new_axis / trim=False
+    for _ in range(ctx.n(45, 500)):
+        mode = rng.choice(["drop_axis", "new_axis", "trim_false"])
+        dep = rng.randint(1, 2)
+        kk = rng.randint(1, 3)
+        offs = [rng.randint(-dep, dep) for _ in range(kk)]
+        ws = [rng.randint(-2, 3) or 1 for _ in range(kk)]
+        if mode == "trim_false":
+            n = rng.randint(dep, 9)
+            yield "mapov3", {"mode": mode, "chunks": [_chunks_at_least(rng, n, dep)], "depth": dep, "boundary": "none",
+                             "offsets": offs, "weights": ws}
+        else:
+            yield "mapov3", {"mode": mode, "chunks": [[rng.randint(1, 3)], list(random_chunks(rng, rng.randint(dep, 8)))],
+                             "depth": dep, "boundary": rng.choice(["none", "reflect", "periodic", "nearest", 2]),
+                             "offsets": offs, "weights": ws}
     # sliding_window_view
     for _ in range(ctx.n(50, 800)):
         nd = rng.randint(1, 3)
